@@ -16,4 +16,6 @@ grep -E "^(VIOLATION|KNOWN-FINDING|C[0-9]+ )" "/verif/.work/seedtest-$$.out" | c
 echo "exit=$rc"
 [ -f "/verif/.work/ev-$$.json" ] && mv "/verif/.work/ev-$$.json" "$ev"
 rm -rf "$copy" "/verif/.work/seedtest-$$.out" "/verif/.work/seedtest-$$.err"
+# the seeded run regenerated lean/Cog/Gen/* from the patched copy: regenerate from /repo
+PYTHONPATH=/verif python3 /verif/tools/regen.py >/dev/null 2>&1
 exit 0
